@@ -303,7 +303,8 @@ impl<'a, SlotType: 'a + Debug> MetaSubscriber<'a, SlotType> for MMapMetaDynamicS
 
     #[inline(always)]
     fn remaining_elements_count(&self) -> usize {
-        self.meta_mmap_log_topic.mmap_contents.consumer_tail.load(Relaxed) - self.head.load(Relaxed)
+        // `head` is transiently ahead of the tail while an empty-handed `consume()` is in flight (it is incremented first, receded afterwards)
+        self.meta_mmap_log_topic.mmap_contents.consumer_tail.load(Relaxed).saturating_sub(self.head.load(Relaxed))
     }
 
     unsafe fn peek_remaining(&self) -> Vec<&SlotType> {
@@ -362,7 +363,8 @@ impl<'a, SlotType: 'a + Debug> MetaSubscriber<'a, SlotType> for MMapMetaFixedSub
 
     #[inline(always)]
     fn remaining_elements_count(&self) -> usize {
-        self.fixed_tail - self.head.load(Relaxed)
+        // `head` is transiently ahead of the tail while an empty-handed `consume()` is in flight (it is incremented first, receded afterwards)
+        self.fixed_tail.saturating_sub(self.head.load(Relaxed))
     }
 
     unsafe fn peek_remaining(&self) -> Vec<&SlotType> {
